@@ -128,6 +128,9 @@ class QBytesTensor(QTensor):
             t = SymmetricQuantizer.apply(t, self.qtype, self.axis, AbsmaxOptimizer()(t, self.qtype.bits, self.axis))
         # The inner tensors might be shared with other quantized tensors: they must not be modified
         self._data = t._data
+        if self._data.shape == self.shape and self._data.stride() != self.stride() and 0 not in self.stride():
+            # (the Tensor keeps its strides: lay out the data of a transposed Tensor accordingly)
+            self._data = torch.empty_strided(self.size(), self.stride(), dtype=t._data.dtype, device=t.device).copy_(t._data)
         self._scale = t._scale
         # (the transposition of a square Tensor quantized per-axis changes its axis)
         self._axis = t.axis
